@@ -30,7 +30,11 @@ ASSUME Devs \subseteq DevNames
 
 (* deviations the pinned pp.c is known to exhibit (known_findings.d/C12.json); *)
 (* a deviation is deleted from this set when the defect is repaired in /repo  *)
-KnownDevs == DevNames
+KnownDevs == {"StrSkipsNested", "StaleDepth"}
+(* repaired in /repo (fix: commits of 2026-10-04; known_findings.d/C12.json has the hashes); the disjuncts are kept,
+   switched off, as the record of what the defect was (config sec8_hist exhibits each against Expand):
+   PendingReuse PaintBody ArgUseAfterFree UndefFreesHeldBody (next() copies the token), KeywordFreesLit,
+   MacroequalSpace, StaleNewline, TrailingComma, StrTrailingNL ZeroParamNL ArgNewlineTok (new-lines in invocations) *)
 NoDevs == {}
 Dev(n) == n \in Devs
 
